@@ -196,8 +196,38 @@ def refusal_triggers(kname, pos, backend, t):
     return keys
 
 
-def relational_triggers(t, backend, flags, prob):
+def _to_one_targets(t, root):
+    """{target entity: set of distinct to-one relationship paths reaching it} at root level."""
+    from .gen import relational as R
+    out = {}
+
+    def walk(n, bound):
+        if n[0] in ("id", "attr"):
+            parts = R.path_parts(n)
+            if parts[0] in bound:
+                return
+            e, path = root, []
+            for p in parts:
+                if p in R.TO_ONE.get(e, {}):
+                    e = R.TO_ONE[e][p]
+                    path.append(p)
+                    out.setdefault(e, set()).add(tuple(path))
+                else:
+                    break
+            return
+        if n[0] == "lam":
+            walk(n[1], bound)
+            return
+        for c in T.children(n):
+            walk(c, bound)
+    walk(t, frozenset())
+    return out
+
+
+def relational_triggers(t, backend, flags, prob, root="post"):
     keys = []
+    if backend == "sqlalchemy" and any(len(v) > 1 for v in _to_one_targets(t, root).values()):
+        keys.append("sqla-same-entity-via-two-paths")
     has_all = any(n[0] == "lam" and n[2] == "all" for n in T.walk(t))
     rels = {"author", "country", "post"}
     to_one = any((n[0] == "attr" and n[1][0] == "id" and n[1][1] in rels) or
